@@ -31,7 +31,9 @@ ASSUMPTIONS = [
     'interpreter-level steps (LINE events of all Python code run by the call, dependencies included) are what is '
     'bounded; C-level work (slice copies, list.insert(0, ...)) and wall time are not visible to the meter',
     'linear means: the marginal cost per added byte between 4n and 8n is at most 1.5x (+30 steps/byte) the marginal '
-    'cost between n and 2n when all four sizes end in the same outcome (quadratic work gives 4x), and steps <= 20000 '
+    'cost between n and 2n when all four sizes end in the same outcome (quadratic work gives 4x) - reported only when '
+    'the marginal cost also grows by more than 1.25x (+15) at each of the two doublings in between, so that a single '
+    'jump from "gives up at once" to "does the linear work" is not taken for growth - and steps <= 20000 '
     '+ 6000 * len(input) for every measured input; depth must not grow strictly with n and stay <= 120 frames',
     'a measurement is cut off at 4x the absolute bound (the call is then reported, not waited for)',
     'declared amounts: two same-sized inputs that announce 0x3fff.. and 0xffff.. in one length / count field and end '
@@ -284,10 +286,16 @@ def check_case(case):
         depths = [r[3] for r in results]
         if sizes[0] < sizes[1] < sizes[2] < sizes[3]:
             first = (steps[1] - steps[0]) / float(sizes[1] - sizes[0])
+            middle = (steps[2] - steps[1]) / float(sizes[2] - sizes[1])
             last = (steps[3] - steps[2]) / float(sizes[3] - sizes[2])
-            if last > 1.5 * max(first, 0.0) + 30:
+            # superlinear work makes the marginal cost grow at *every* doubling (x2 for quadratic work); a parser
+            # that gives up early on the small sizes and only starts to work at the largest one shows a single jump
+            # (0, 0, L) - that is a change of regime with the same outcome, not growth
+            grows_throughout = middle > 1.25 * max(first, 0.0) + 15 and last > 1.25 * max(middle, 0.0) + 15
+            if last > 1.5 * max(first, 0.0) + 30 and grows_throughout:
                 findings.append(Finding('superlinear/%s:%s' % (name, label), {
-                    'sizes': sizes, 'steps': steps, 'marginal_steps_per_byte': [round(first, 1), round(last, 1)]}))
+                    'sizes': sizes, 'steps': steps,
+                    'marginal_steps_per_byte': [round(first, 1), round(middle, 1), round(last, 1)]}))
         if depths[0] < depths[1] < depths[2] < depths[3] and depths[3] - depths[0] >= 6:
             findings.append(Finding('depth-grows/%s:%s' % (name, label), {'sizes': sizes, 'depths': depths}))
     return findings
